@@ -24,7 +24,7 @@ TRANSLATORS = [
     ("extract_cache", "generate"), ("extract_rinex_obs", "main"), ("extract_rinexnav", "main"),
     ("extract_sp3", "main"), ("extract_sinex", "main"), ("extract_antex", "main"), ("extract_effects", "main"),
     ("extract_writers", "main"), ("extract_siteinfo", "write"), ("extract_config", "write"),
-    ("extract_c20", "generate"),
+    ("extract_c20", "generate"), ("extract_exprs", "generate"),
 ]
 
 
